@@ -35,6 +35,7 @@ struct LT {
 // ---- focus set -------------------------------------------------------------------------------------------------
 // With focus on, only tracked addresses are schedule points (others run through, counted in g_untracked).
 void track(const void* addr);
+void track_range(const void* lo, const void* hi);   // every address in [lo, hi) is tracked (node pools)
 void untrack_all();
 void focus_only(bool on);
 bool is_tracked(const void* addr);
